@@ -111,11 +111,24 @@ def _thr_total(ctx, t):
     return t.get("total_weight")
 
 
+def kernel_fact_vcs(tier):
+    """the facts about the real kernel (from its MIR) that the abstraction above assumes and that tie a derived status to the exact
+    threshold formula; they are C04's VCs re-run under this property, so a change to the kernel that breaks the link is reported here too"""
+    from . import c04
+    out = []
+    for vc in c04.vcs(tier):
+        if ".decide." in vc.name or ".monotone." in vc.name or ".current_status." in vc.name:
+            vc.property_id = "C03"
+            vc.name = vc.name.replace("C04.", "C03.kernel.")
+            out.append(vc)
+    return out
+
+
 def vcs(tier):
     out = []
     for c in (FIXED, FLEX):
         out += [Step(c, v) for v in ("Propose", "Vote", "Execute", "Close")] + [Query(c)]
-    return out
+    return out + kernel_fact_vcs(tier)
 
 
 BOUNDS = {"voters / group members with state": NV, "proposals with state": "1 focus (symbolic id and content) + 1 bystander", "messages per proposal": "<= 1",
